@@ -36,12 +36,13 @@ def gen_scenario(rng):
     return specs, texts, rng.random() < .6
 
 
-def engine_correspondence(ctx, n, tag="engine"):
+def engine_correspondence(ctx, n, tag="engine", gen=None, corpus=None, extra_check=None):
     """Run n random scenarios through the real engine and the Lean model. Returns stats."""
     drv = vlib.Driver("engine")
-    scen = [gen_scenario(ctx.rng) for _ in range(n)]
+    gen = gen or gen_scenario
+    scen = [gen(ctx.rng) for _ in range(n)]
     # fixed corpus first
-    scen = CORPUS + scen
+    scen = (CORPUS if corpus is None else corpus) + scen
     reqs, ords = [], []
     diffs_total, evals, nontrivial, samples = 0, 0, set(), []
     dist = {"faults": 0, "pragma": 0, "multi_rule": 0, "multi_file": 0, "ties": 0}
@@ -55,6 +56,11 @@ def engine_correspondence(ctx, n, tag="engine"):
         for (specs, texts, cont), real, ans, ordered in zip(scen, reals, answers, ords):
             evals += 1
             d = E.compare(real, ans, ordered)
+            for sp in specs:
+                if not sp.get("enabled", True) and real["log"].get(sp["id"]):
+                    d.append(f"disabled rule {sp['id']} received {len(real['log'][sp['id']])} calls")
+            if extra_check:
+                d += extra_check(specs, texts, cont, real)
             printed = [r for v in real["printed"].values() for r in v]
             if printed or real["errs"]:
                 nontrivial.add(json.dumps([specs, texts, cont], sort_keys=True))
